@@ -129,6 +129,10 @@ class SymEval:
                         r = self.ev(alloc.args[0].elts[idx.value])
                         if r is not None:
                             return r
+                    if isinstance(idx.value, int) and idx.value in (0, 1):
+                        r = self.shape(e.value.value, idx.value)
+                        if r is not None:
+                            return r
                     return P.s(f"{astq.src(e.value.value, 40)}.shape[{idx.value}]")
             return P.s(astq.src(e, 60).replace(" ", ""))
         if isinstance(e, ast.Attribute) and self.atoms and e.attr in ("real", "imag"):
@@ -142,6 +146,99 @@ class SymEval:
                 return P.s("pi")
             return P.s(astq.src(e, 60))
         return None
+
+
+ELEMENTWISE = {"numpy.sqrt", "numpy.abs", "numpy.absolute", "numpy.real", "numpy.imag", "numpy.conj", "numpy.conjugate", "numpy.array", "numpy.asarray",
+               "numpy.copy", "numpy.ascontiguousarray", "numpy.negative", "numpy.exp", "numpy.log", "numpy.nan_to_num"}
+
+
+def _shape(self, e, k, depth=0):
+    """extent of axis k (0 or 1) of the 2-d array expression e as a polynomial in the extents of the function's inputs; None when
+    the expression is not one of: name with one definition, product, element-wise operation, row/column slice, transpose, factor
+    of an SVD / QR"""
+    if depth > 14:
+        return None
+    if isinstance(e, ast.Name):
+        if e.id in self.stop:
+            return None
+        ent = self.amap.get(e.id) or []
+        d = astq.unique_def(self.amap, e.id)
+        if d is None and len(ent) == 1 and isinstance(ent[0][0], ast.Assign) and isinstance(ent[0][0].targets[0], (ast.Tuple, ast.List)) and isinstance(ent[0][0].value, ast.Call):
+            # U, S, Vt = svd(H): element i of the call
+            names = [getattr(x, "id", None) for x in ent[0][0].targets[0].elts]
+            if e.id in names and not any(isinstance(x, ast.Starred) for x in ent[0][0].targets[0].elts):
+                d = ast.Subscript(value=ent[0][0].value, slice=ast.Constant(value=names.index(e.id)), ctx=ast.Load())
+        if d is None:
+            if ent and all(isinstance(st, ast.FunctionDef) for st, _ in ent):
+                return P.s(f"{e.id}.shape[{k}]")       # a parameter
+            return None
+        self.stop.add(e.id)
+        try:
+            return _shape(self, d, k, depth + 1)
+        finally:
+            self.stop.discard(e.id)
+    if isinstance(e, ast.BinOp):
+        if isinstance(e.op, ast.MatMult):
+            return _shape(self, e.left if k == 0 else e.right, k, depth + 1)
+        a, b = _shape(self, e.left, k, depth + 1), _shape(self, e.right, k, depth + 1)
+        return a if a is not None else b
+    if isinstance(e, ast.Attribute) and e.attr == "T":
+        return _shape(self, e.value, 1 - k, depth + 1)
+    if isinstance(e, ast.Attribute) and e.attr in ("real", "imag"):
+        return _shape(self, e.value, k, depth + 1)
+    if isinstance(e, ast.Call):
+        nm = astq.callee_name(self.prog, self.fi, e)
+        if nm in ("numpy.dot", "numpy.matmul") and len(e.args) == 2:
+            return _shape(self, e.args[0] if k == 0 else e.args[1], k, depth + 1)
+        if nm in ELEMENTWISE and e.args:
+            return _shape(self, e.args[0], k, depth + 1)
+        if nm in ("numpy.linalg.pinv", "numpy.linalg.inv", "scipy.linalg.pinv", "scipy.linalg.inv", "numpy.transpose") and len(e.args) == 1:
+            return _shape(self, e.args[0], 1 - k, depth + 1)
+        if isinstance(e.func, ast.Attribute) and e.func.attr in ("copy", "conj", "astype", "conjugate") and nm is not None and nm.startswith("."):
+            return _shape(self, e.func.value, k, depth + 1)
+        return None
+    if isinstance(e, ast.Subscript):
+        v = e.value
+        if isinstance(v, ast.Call) and isinstance(e.slice, ast.Constant) and isinstance(e.slice.value, int):
+            nm = astq.callee_name(self.prog, self.fi, v)
+            fm = astq.kwarg(v, "full_matrices", 1)
+            if nm in ("numpy.linalg.svd", "scipy.linalg.svd") and v.args:
+                # U: (M, M) or (M, K); Vh: (N, N) or (K, N): the leading extent of U and the trailing one of Vh do not depend on the mode
+                if e.slice.value == 0 and (k == 0 or fm is None or (isinstance(fm, ast.Constant) and fm.value is True)):
+                    return _shape(self, v.args[0], 0, depth + 1)
+                if e.slice.value == 2 and (k == 1 or fm is None or (isinstance(fm, ast.Constant) and fm.value is True)):
+                    return _shape(self, v.args[0], 1, depth + 1)
+                return None
+            if nm in ("numpy.linalg.qr", "scipy.linalg.qr") and v.args and e.slice.value == 0 and k == 0:
+                return _shape(self, v.args[0], 0, depth + 1)
+            return None
+        el = astq.index_elts(e)
+        if len(el) > 2 or any(not isinstance(x, ast.Slice) for x in el):
+            return None
+        if k < len(el):
+            sl = el[k]
+            if sl.step is not None:
+                return None
+            if sl.lower is None and sl.upper is None:
+                return _shape(self, v, k, depth + 1)
+            lo = self.ev(sl.lower) if sl.lower is not None else P.c(0)
+            if sl.upper is not None:
+                up = sl.upper
+                if isinstance(up, ast.UnaryOp) and isinstance(up.op, ast.USub):
+                    ext, cut = _shape(self, v, k, depth + 1), self.ev(up.operand)
+                    hi = ext - cut if ext is not None and cut is not None else None
+                else:
+                    hi = self.ev(up)
+            else:
+                hi = _shape(self, v, k, depth + 1)
+            if lo is None or hi is None:
+                return None
+            return hi - lo
+        return _shape(self, v, k, depth + 1)
+    return None
+
+
+SymEval.shape = _shape
 
 
 def range_args(se, call):
